@@ -8,9 +8,14 @@
   * `_cache`, `_waiters` (FIFO deques), `_current_size`, `_state`;
   * the store of underlying sinks (`alive` = `state <= Open`; `lent` = the call whose stack
     holds the pool's frame with this sink as context);
-  * every call's position: arriving (inside `AsyncProcessRequest`), pending (its stack is in
-    `_waiters` with the QueuingMessageSink frame on top), started on a sink, released (the
-    pool's frame has been popped, the response is travelling up), done (stack drained);
+  * every call's position: arriving (inside `AsyncProcessRequest`), connecting (its greenlet is
+    blocked in `sink.Open().wait()` inside `_Get`, the slot already counted), pending (its
+    stack is in `_waiters` with the QueuingMessageSink frame on top), started on a sink,
+    released (the pool's frame has been popped, the response is travelling up), done (stack
+    drained); a call whose caller was answered by the timer while it was still connecting is
+    an *orphan* (its greenlet will still push the pool's frame and send the request when the
+    connect ends) and then a *zombie* (its stack holds nothing but the pool's frame, so the
+    connection's answer releases the connection and reaches nobody);
   * the hub's FIFO of deferred `gevent.spawn(self._ProcessQueue, sink)` calls (`tasks`).
 
   Between two yield points a pool method is atomic, so an operation is a sequence of
@@ -35,20 +40,35 @@ inductive Outcome where
 inductive CStat where
   | arriving
   | pending
+  | connecting (sid : Nat)   -- blocked in Open().wait() of a new connection
+  | orphan (sid : Nat)       -- still connecting, but the caller has already been answered
   | started (sid : Nat)
+  | zombie (sid : Nat)       -- started after the caller had been answered
   | released
   | done
   deriving Repr, DecidableEq, Inhabited
 
+/-- the connection this call's greenlet / sink stack holds -/
+def CStat.holds : CStat → Option Nat
+  | .connecting sid => some sid
+  | .orphan sid => some sid
+  | .started sid => some sid
+  | .zombie sid => some sid
+  | _ => none
+
+/-- `alive`: state <= Open (Idle while it is being opened); `lent`: the call that holds it;
+    `opening`: that call is still blocked in `Open().wait()` -/
 structure SinkSt where
   alive : Bool
   lent : Option Nat
+  opening : Bool
   deriving Repr, DecidableEq, Inhabited
 
 inductive Ev where
   | created (sid : Nat) (ok : Bool)   -- provider.CreateSink; `ok` = the sink opened
   | closed (sid : Nat)                -- pool called sink.Close()  (`_DiscardSink`)
   | sent (sid : Nat) (c : Nat)        -- sink `sid` received the request of call `c`
+  | connecting (sid : Nat) (c : Nat)  -- call `c` is blocked in `Open().wait()` of new sink `sid`
   | queued (c : Nat)                  -- call `c` was appended to `_waiters`
   | rel (sid : Nat)                   -- `_Release(sink)` entered for a real sink
   | done (c : Nat) (out : Outcome)    -- the caller's frame received the response
@@ -66,18 +86,28 @@ def holderOf (v : View) (sid : Nat) : Option Nat :=
   | none => none
 
 def View.apply (v : View) : Ev → View
-  | .created _ ok => { v with sinks := v.sinks ++ [⟨ok, none⟩] }
+  | .created _ ok => { v with sinks := v.sinks ++ [⟨ok, none, false⟩] }
   | .closed sid => { v with sinks := v.sinks.modify sid (fun k => { k with alive := false }) }
   | .sent sid c =>
-    { calls := v.calls.set c (.started sid),
-      sinks := v.sinks.modify sid (fun k => { k with lent := some c }) }
+    { calls := v.calls.set c (match v.calls[c]? with
+                              | some (.orphan _) => .zombie sid
+                              | _ => .started sid),
+      sinks := v.sinks.modify sid (fun k => { k with lent := some c, opening := false }) }
+  | .connecting sid c =>
+    { calls := v.calls.set c (.connecting sid),
+      sinks := v.sinks.modify sid (fun k => { k with lent := some c, opening := true }) }
   | .queued c => { v with calls := v.calls.set c .pending }
   | .rel sid =>
     { calls := match holderOf v sid with
-               | some c => v.calls.set c .released
+               | some c => v.calls.set c (match v.calls[c]? with
+                                          | some (.zombie _) => .done
+                                          | _ => .released)
                | none => v.calls,
-      sinks := v.sinks.modify sid (fun k => { k with lent := none }) }
-  | .done c _ => { v with calls := v.calls.set c .done }
+      sinks := v.sinks.modify sid (fun k => { k with lent := none, opening := false }) }
+  | .done c _ =>
+    { v with calls := v.calls.set c (match v.calls[c]? with
+                                     | some (.connecting sid) => .orphan sid
+                                     | _ => .done) }
   | .raised _ => v
 
 inductive PState where
@@ -158,19 +188,20 @@ def dequeue (s : St) : List Nat → St × Option Nat
     else dequeue (discard { s with cache := rest, size := s.size - 1 } sid) rest
 
 inductive GetRes where
-  | sink (sid : Nat)
+  | sink (sid : Nat) (fresh : Bool)
   | queue
   | fail
   deriving Repr, DecidableEq
 
-/-- `_Get`; `ok` tells whether a newly created sink opens successfully -/
+/-- `_Get` up to `sink.Open()`; `ok`: the state of a newly created sink is <= Open when
+    `Open()` returns (it opened at once, or it is still being opened) -/
 def get (cfg : Cfg) (s0 : St) (ok : Bool) : St × GetRes :=
   match dequeue s0 s0.cache with
-  | (s, some sid) => (s, .sink sid)
+  | (s, some sid) => (s, .sink sid false)
   | (s, none) =>
     if s.size < cfg.max then
       (({ s with size := s.size + 1 }).emit (.created s.view.sinks.length ok),
-        .sink s.view.sinks.length)
+        .sink s.view.sinks.length true)
     else if s.waiters.length + 1 > cfg.maxq then (s, .fail)
     else (s, .queue)
 
@@ -182,7 +213,11 @@ def procQueue (cfg : Cfg) (s : St) (sid : Nat) : List Nat → St
     else procQueue cfg { s with waiters := rest } sid rest
 
 inductive Op where
-  | request (ok : Bool)      -- a new call arrives (its id is the number of earlier requests)
+  | request (ok : Bool) (lat : Bool)
+      -- a new call arrives (its id is the number of earlier requests); if a connection has to
+      -- be created: `lat` — its Open() does not complete at once (the caller's greenlet blocks
+      -- in `_Get`); otherwise `ok` — whether it opened
+  | opened (sid : Nat) (ok : Bool)  -- the pending Open() of connection `sid` completes
   | respond (c : Nat)        -- the sink serving call c posts a reply into c's stack
   | timeout (c : Nat)        -- c's timer fires: the timeout sink drains c's stack
   | die (sid : Nat)          -- the underlying connection dies (state becomes Closed)
@@ -193,31 +228,49 @@ inductive Op where
 
 /-- what an operation does to sinks and calls before any pool code runs -/
 def preOp (v : View) : Op → View
-  | .request _ => { v with calls := v.calls ++ [.arriving] }
+  | .request _ _ => { v with calls := v.calls ++ [.arriving] }
   | .die sid => { v with sinks := v.sinks.modify sid (fun k => { k with alive := false }) }
+  | .opened sid ok =>
+    { v with sinks := v.sinks.modify sid (fun k => if k.opening then { k with alive := ok } else k) }
   | _ => v
 
 /-- somebody drains call c's stack from the top, delivering `out` -/
 def drainCall (cfg : Cfg) (s : St) (c : Nat) (out : Outcome) : St :=
   match s.stat c with
   | some .pending => s.emit (.done c out)
+  | some (.connecting _) => s.emit (.done c out)
   | some (.started sid) => (release cfg s sid).emit (.done c out)
   | _ => s
+
+/-- the pending `Open()` of `sid` completed: the blocked `_Get` returns the sink (whatever its
+    state), `AsyncProcessRequest` pushes the pool's frame and forwards the request -/
+def openedSt (s : St) (sid : Nat) : St :=
+  match s.view.sinks[sid]? with
+  | some k =>
+    if k.opening then
+      match k.lent with
+      | some c => s.emit (.sent sid c)
+      | none => s
+    else s
+  | none => s
 
 def stepSt (cfg : Cfg) (s0 : St) (op : Op) : St :=
   let s := { s0 with base := preOp s0.base op }
   match op with
-  | .request ok =>
+  | .request ok lat =>
     let c := s0.base.calls.length
-    match get cfg s ok with
-    | (s1, .sink sid) => s1.emit (.sent sid c)
+    match get cfg s (lat || ok) with
+    | (s1, .sink sid fresh) =>
+      if fresh && lat then s1.emit (.connecting sid c) else s1.emit (.sent sid c)
     | (s1, .queue) => ({ s1 with waiters := s1.waiters ++ [c] }).emit (.queued c)
     | (s1, .fail) => s1.emit (.done c .maxWaiters)
   | .respond c =>
     match s.stat c with
     | some (.started _) => drainCall cfg s c .reply
+    | some (.zombie sid) => release cfg s sid
     | _ => s
   | .timeout c => drainCall cfg s c .timeout
+  | .opened sid _ => openedSt s sid
   | .die _ => s
   | .run =>
     match s.tasks with
@@ -226,7 +279,7 @@ def stepSt (cfg : Cfg) (s0 : St) (op : Op) : St :=
   | .close => closePool s
   | .openPool ok =>
     match get cfg s ok with
-    | (s1, .sink sid) => { release cfg s1 sid with pstate := .opened }
+    | (s1, .sink sid _) => { release cfg s1 sid with pstate := .opened }
     | (s1, _) => { s1 with pstate := .opened }
 
 structure Obs where
